@@ -127,6 +127,19 @@ Fixpoint lstrip (s : list Z) : list Z :=
 
 Definition strip (s : list Z) : list Z := rev (lstrip (rev (lstrip s))).
 
+(* the white space int() / float() skip around an (ASCII) literal: narrower than str.strip()
+   (no 0x1c..0x1f) *)
+Definition is_ws_num (c : Z) : bool :=
+  ((9 <=? c) && (c <=? 13)) || (c =? 32) || (c =? 133) || (c =? 160).
+
+Fixpoint lstrip_num (s : list Z) : list Z :=
+  match s with
+  | c :: r => if is_ws_num c then lstrip_num r else s
+  | [] => []
+  end.
+
+Definition strip_num (s : list Z) : list Z := rev (lstrip_num (rev (lstrip_num s))).
+
 (* str.split(sep) for a one-character separator *)
 Fixpoint split (sep : Z) (s : list Z) : list (list Z) :=
   match s with
@@ -196,7 +209,7 @@ Definition with_sign (f : list Z -> option Z) (s : list Z) : option Z :=
   end.
 
 (* int(x) (base 10) *)
-Definition py_int10 (s : list Z) : option Z := with_sign (fun r => pdu 10 r 0 false) (strip s).
+Definition py_int10 (s : list Z) : option Z := with_sign (fun r => pdu 10 r 0 false) (strip_num s).
 
 Definition prefixed (base : Z) (r : list Z) : option Z :=
   match r with
@@ -224,7 +237,7 @@ Definition py_int0_unsigned (s : list Z) : option Z :=
   end.
 
 (* int(x, 0) *)
-Definition py_int0 (s : list Z) : option Z := with_sign py_int0_unsigned (strip s).
+Definition py_int0 (s : list Z) : option Z := with_sign py_int0_unsigned (strip_num s).
 
 Definition py_int (base : Z) (s : list Z) : option Z :=
   if base =? 0 then py_int0 s else if base =? 10 then py_int10 s else None.
@@ -325,7 +338,7 @@ Definition py_float_unsigned (s : list Z) : option Q :=
   end.
 
 Definition py_float (s : list Z) : option Q :=
-  match strip s with
+  match strip_num s with
   | 43 :: r => py_float_unsigned r
   | 45 :: r => option_map Qopp (py_float_unsigned r)
   | r => py_float_unsigned r
